@@ -185,7 +185,10 @@ struct Oracle<'a> {
 impl<'a> Oracle<'a> {
     fn single(&self, call: &Value, profile: usize) -> Out {
         let plan = json!({"threads": [[call]], "schedule": {"kind": "none"}});
-        let r = run_worker_env(&self.cfg.plain, &self.cfg.tree_root, &plan, 120, profile);
+        // the second fresh process also starts in another working directory (from which the
+        // relative spellings name the same files)
+        let cwd = if profile == 1 { self.cfg.tree_root.join("cwd2") } else { self.cfg.tree_root.clone() };
+        let r = run_worker_env(&self.cfg.plain, &cwd, &plan, 120, profile);
         match (r.json, r.crash) {
             (Some(v), _) => Out::from_json(&v["outcomes"][0][0]),
             (None, Some(c)) => Out::Crash(c),
